@@ -97,6 +97,14 @@ def obj_class():
             return ("tagged", tag, payload)
 
         @rpc_method
+        def blob(self, n, fill=80):
+            return bytes([fill]) * n
+
+        @rpc_method
+        def size_of(self, x):
+            return len(x)
+
+        @rpc_method
         def raise_from(self, exc, cause):
             raise exc from cause
 
@@ -1054,6 +1062,143 @@ def run_corpus(seed, real_tcp=False):
 
 
 # ---------------------------------------------------------------------------
+# boundaries that live in the source: message size limit, queue bounds
+# ---------------------------------------------------------------------------
+
+def run_size_boundary(plan, want_trace=True):
+    """Peer calls whose pickled request / reply size is swept across the size limit (exactly L, L-1 … L-16, L+1 …).
+    What the statement allows is decided from what the *sender* did: a message it put on the wire must arrive (outcome =
+    direct call); a message it refused gives QMI_MessageDeliveryException.  Returns (checks, offsets hit, info)."""
+    import qmi.core.messaging as M
+    checks, hit = [], []
+    trace = T.Trace()
+    limit = plan.get("limit")
+    saved = M._PeerTcpConnection.MAX_MESSAGE_SIZE
+    L = limit if limit is not None else saved
+    offsets = plan.get("offsets")              # None = every size from L-18 to L+3
+
+    def body(w):
+        from qmi.core.exceptions import QMI_MessageDeliveryException
+        srv = w.context("srv", server=True)
+        srv.make_rpc_object("obj", obj_class())
+        cli = w.context("cli")
+        w.connect(cli, srv)
+        r = cli.get_rpc_object_by_name("srv.obj")
+        pid = T.note_proxy(trace, method_names(), BINDING[0], "blk", HELPER_PARAMS[0])
+        M._PeerTcpConnection.MAX_MESSAGE_SIZE = L
+        direct = new_direct()
+
+        def one(kind, n):
+            """returns (sent size or None if refused, outcome)"""
+            mark = len(trace.sizes)
+            if kind == "reply":
+                out = _outcome(lambda: T.call_stub(trace, pid, r, "blob", (n,), {}))
+                d = _outcome(lambda: direct.blob(n))
+                want = "mrep"
+            else:
+                out = _outcome(lambda: T.call_stub(trace, pid, r, "size_of", (bytes(n),), {}))
+                d = _outcome(lambda: direct.size_of(bytes(n)))
+                want = "mreq"
+            recs = [x for x in trace.sizes[mark:] if x[0] == want]
+            size = recs[-1][1] if recs else None
+            return size, d, out
+        for kind in plan.get("kinds", ["reply", "request"]):
+            n0 = max(L - 600, 10)
+            size, d, out = one(kind, n0)
+            if size is None or compare(d, out):
+                checks.append((f"size-boundary:{kind}:calibration size={size} direct={d!r:.60} proxy={out!r:.120}", ("true",), False))
+                return True
+            overhead = size - n0
+            ns = [L - overhead - k for k in (offsets if offsets is not None else range(18, -4, -1))]
+            for n in ns:
+                size, d, out = one(kind, n)
+                if size is not None:
+                    hit.append((kind, L - size))
+                    checks.append((f"size-boundary:{kind}:sent-with-{L - size}-bytes-to-spare-must-arrive", d, out))
+                else:
+                    hit.append((kind, "refused"))
+                    checks.append((f"size-boundary:{kind}:refused-by-sender-gives-delivery-error",
+                                   ("exctype", QMI_MessageDeliveryException), out))
+                if checks_oracle(checks[-1:], {}) is not None:
+                    return True                       # the connection is most likely gone; stop here
+        trace.enabled = False
+        return True
+
+    T.TRACE = trace
+    try:
+        from harness.simworld import run_scenario
+        out = run_scenario(plan.get("seed", 0), body, max_steps=plan.get("max_steps", 400000),
+                           split_prob=plan.get("split_prob", 0.7))
+        info = {"deadlock": out.deadlock, "budget": out.budget, "error": out.error,
+                "thread_errors": out.thread_errors, "loop_exceptions": list(out.net.loop_exceptions) if out.net else []}
+    finally:
+        T.TRACE = None
+        M._PeerTcpConnection.MAX_MESSAGE_SIZE = saved
+    return checks, hit, (trace if want_trace else None), info
+
+
+def live_queue_bounds(ctx, name):
+    """finite bounds of every deque / Queue reachable from the live objects a request or reply passes through"""
+    import collections
+    import queue
+    mgr = ctx._rpc_object_map[name]
+    roots = [mgr, getattr(mgr, "_rpc_thread", None), ctx._message_router, getattr(ctx._message_router, "_thread", None),
+             getattr(ctx._message_router, "_socket_manager", None), ctx]
+    out = []
+    for o in roots:
+        if o is None:
+            continue
+        for k, v in list(vars(o).items()):
+            if isinstance(v, collections.deque) and v.maxlen is not None:
+                out.append((f"{type(o).__name__}.{k}", v.maxlen))
+            elif isinstance(v, queue.Queue) and v.maxsize > 0:
+                out.append((f"{type(o).__name__}.{k}", v.maxsize))
+    return out
+
+
+def run_burst(plan):
+    """q+1 un-waited calls behind a parked worker for every finite bound q found on the live objects (and for every small
+    MAX_* constant), else a fixed large burst; same-context placement, real threads (no scheduler needed: every call
+    must simply get its own outcome).  Returns (checks, facts, info)."""
+    checks, facts = [], {}
+
+    def body(w):
+        import threading
+        ctx = w.context("srv")
+        p = ctx.make_rpc_object("slow", slow_class())
+        bounds = live_queue_bounds(ctx, "slow")
+        consts = [(n, v) for n, v, _, _ in live_limits() if v <= 100000]
+        facts["finite_queue_bounds"] = bounds
+        facts["small_max_constants"] = consts
+        qs = sorted({b for _, b in bounds} | {v for _, v in consts})
+        n_burst = (max(qs) + 1) if qs else plan.get("fixed_burst", 12000)
+        n_burst = min(n_burst, plan.get("cap", 60000))
+        facts["burst"] = n_burst
+        gate = threading.Event()
+        _GATE[0] = gate
+        park = p.rpc_nonblocking.hold("park")
+        futs = [p.rpc_nonblocking.hold(i) for i in range(n_burst)]
+        gate.set()
+        checks.append(("burst:parked-call", ("val", ("held", "park")), _outcome(lambda: park.wait(60.0))))
+        bad = 0
+        for i, f in enumerate(futs):
+            out = _outcome(lambda: f.wait(20.0 if bad == 0 else 0.0))
+            if compare(("val", ("held", i)), out):
+                bad += 1
+                if bad == 1:
+                    checks.append((f"burst:call-{i}-of-{n_burst}-behind-a-parked-worker-gets-its-own-outcome", ("val", ("held", i)), out))
+        facts["calls_without_own_outcome"] = bad
+        _GATE[0] = None
+        return True
+    info = _run_real(body)
+    g = _GATE[0]
+    _GATE[0] = None
+    if g is not None:
+        g.set()
+    return checks, facts, info
+
+
+# ---------------------------------------------------------------------------
 # translator: how the stubs are bound, and which helper parameters a caller keyword can collide with
 # ---------------------------------------------------------------------------
 
@@ -1151,6 +1296,155 @@ def extract_stub_facts(src: str, class_name: str):
     if helper.args.vararg is None or helper.args.kwarg is None or len(helper.args.posonlyargs) + len(helper.args.args) != n_pos:
         raise ValueError(f"helper {helper.name}: signature does not match the stub's call")
     return binding, [a.arg for a in helper.args.args]
+
+
+# ---------------------------------------------------------------------------
+# translator 2: the limits in the source (size checks, queue bounds, MAX_* constants)
+# ---------------------------------------------------------------------------
+
+LIMIT_FILES = ["qmi/core/rpc.py", "qmi/core/messaging.py", "qmi/core/context.py"]
+QUEUE_CTORS = {"deque": ("maxlen", 1), "Queue": ("maxsize", 0), "LifoQueue": ("maxsize", 0), "PriorityQueue": ("maxsize", 0)}
+
+
+def _enclosing_sites(tree):
+    """node -> 'Class.func' for every node"""
+    site = {}
+
+    def walk(node, name):
+        for ch in ast.iter_child_nodes(node):
+            nm = name
+            if isinstance(ch, (ast.ClassDef, ast.FunctionDef, ast.AsyncFunctionDef)):
+                nm = f"{name}.{ch.name}" if name else ch.name
+            site[ch] = nm
+            walk(ch, nm)
+    walk(tree, "")
+    return site
+
+
+def _resolve_const(expr, modname):
+    """value of a bound expression: literal, or a (class / module) constant looked up in the live module"""
+    if isinstance(expr, ast.Constant):
+        return expr.value
+    import importlib
+    mod = importlib.import_module(modname)
+    if isinstance(expr, ast.Name):
+        return getattr(mod, expr.id, None)
+    if isinstance(expr, ast.Attribute):
+        for obj in [mod] + [c for c in vars(mod).values() if isinstance(c, type)]:
+            v = getattr(obj, expr.attr, None)
+            if isinstance(v, int):
+                return v
+    return None
+
+
+def extract_queues(files):
+    """every deque / Queue constructed in the files: (site, bound or None)"""
+    out = []
+    for rel, src in files:
+        tree = ast.parse(src)
+        site = _enclosing_sites(tree)
+        modname = rel[:-3].replace("/", ".")
+        for node in ast.walk(tree):
+            if not isinstance(node, ast.Call):
+                continue
+            fn = node.func.id if isinstance(node.func, ast.Name) else node.func.attr if isinstance(node.func, ast.Attribute) else None
+            if fn not in QUEUE_CTORS:
+                continue
+            kw, pos = QUEUE_CTORS[fn]
+            bexpr = next((k.value for k in node.keywords if k.arg == kw), None)
+            if bexpr is None and len(node.args) > pos:
+                bexpr = node.args[pos]
+            if any(k.arg is None for k in node.keywords):
+                raise ValueError(f"{rel}:{node.lineno}: {fn}(**…) — cannot tell whether it is bounded")
+            bound = None
+            if bexpr is not None:
+                v = _resolve_const(bexpr, modname)
+                if v is None and not (isinstance(bexpr, ast.Constant) and bexpr.value is None):
+                    raise ValueError(f"{rel}:{node.lineno}: bound of {fn}(…) is not a constant the translator can resolve")
+                bound = int(v) if v else None              # maxlen=None / maxsize=0 mean unbounded
+            out.append((f"{rel.split('/')[-1]}:{site.get(node, '?')}:{fn}", bound))
+    return out
+
+
+def _inline(expr, func, lineno):
+    """replace local names by the expression last assigned to them before `lineno` (single-target assignments)"""
+    for _ in range(6):
+        if not isinstance(expr, ast.Name):
+            break
+        best = None
+        for n in ast.walk(func):
+            if isinstance(n, ast.Assign) and len(n.targets) == 1 and isinstance(n.targets[0], ast.Name) \
+                    and n.targets[0].id == expr.id and n.lineno < lineno and (best is None or n.lineno > best.lineno):
+                best = n
+        if best is None:
+            break
+        expr, lineno = best.value, best.lineno
+    return expr, lineno
+
+
+def _size_quantity(expr, func, lineno):
+    """(kind, offset): kind 'sender' for len(pickle.dumps(..)), 'receiver' for int.from_bytes(recv_buf[1:9]); offset c for c + <that>"""
+    expr, lineno = _inline(expr, func, lineno)
+    if isinstance(expr, ast.BinOp) and isinstance(expr.op, ast.Add):
+        for a, b in ((expr.left, expr.right), (expr.right, expr.left)):
+            if isinstance(a, ast.Constant) and isinstance(a.value, int):
+                kind, off = _size_quantity(b, func, lineno)
+                return kind, off + a.value
+        raise ValueError("size expression is a sum the translator does not understand")
+    if isinstance(expr, ast.Call) and isinstance(expr.func, ast.Name) and expr.func.id == "len" and len(expr.args) == 1:
+        inner, _ = _inline(expr.args[0], func, lineno)
+        if isinstance(inner, ast.Call) and isinstance(inner.func, ast.Attribute) and inner.func.attr == "dumps":
+            return "sender", 0
+    if isinstance(expr, ast.Call) and isinstance(expr.func, ast.Attribute) and expr.func.attr == "from_bytes" and expr.args:
+        a = expr.args[0]
+        if isinstance(a, ast.Subscript) and isinstance(a.slice, ast.Slice) and isinstance(a.slice.lower, ast.Constant) \
+                and isinstance(a.slice.upper, ast.Constant) and (a.slice.lower.value, a.slice.upper.value) == (1, 9):
+            return "receiver", 0
+    raise ValueError(f"line {lineno}: size expression compared with MAX_MESSAGE_SIZE is not understood: {ast.dump(expr)[:120]}")
+
+
+def extract_size_checks(src):
+    """every comparison against MAX_MESSAGE_SIZE in messaging.py: (site, is_sender, offset, strict)"""
+    tree = ast.parse(src)
+    site = _enclosing_sites(tree)
+    funcs = {n: n for n in ast.walk(tree) if isinstance(n, (ast.FunctionDef, ast.AsyncFunctionDef))}
+    out = []
+    for func in funcs:
+        for node in ast.walk(func):
+            if not isinstance(node, ast.Compare) or len(node.ops) != 1:
+                continue
+            l, r, op = node.left, node.comparators[0], node.ops[0]
+            is_lim = lambda e: isinstance(e, ast.Attribute) and e.attr == "MAX_MESSAGE_SIZE"  # noqa
+            if is_lim(r) and isinstance(op, (ast.Gt, ast.GtE)):
+                e, strict = l, isinstance(op, ast.Gt)
+            elif is_lim(l) and isinstance(op, (ast.Lt, ast.LtE)):
+                e, strict = r, isinstance(op, ast.Lt)
+            elif is_lim(l) or is_lim(r):
+                raise ValueError(f"line {node.lineno}: comparison with MAX_MESSAGE_SIZE of a kind the translator does not understand")
+            else:
+                continue
+            if any(site.get(node, "").startswith(site.get(f2, "") + ".") for f2 in funcs if f2 is not func and site.get(f2)):
+                pass
+            kind, off = _size_quantity(e, func, node.lineno)
+            out.append((site.get(node, "?"), kind == "sender", off, strict))
+    # a function nested in another is visited twice: de-duplicate
+    return sorted(set(out))
+
+
+def live_limits():
+    """every MAX_* integer constant at module or class level of qmi.core.rpc / qmi.core.messaging (live import)"""
+    import importlib
+    out = []
+    for modname in ("qmi.core.rpc", "qmi.core.messaging"):
+        mod = importlib.import_module(modname)
+        for k, v in vars(mod).items():
+            if k.startswith("MAX_") and isinstance(v, int) and not isinstance(v, bool):
+                out.append((f"{modname.split('.')[-1]}.{k}", v, mod, k))
+            if isinstance(v, type) and v.__module__ == modname:
+                for ck, cv in vars(v).items():
+                    if ck.startswith("MAX_") and isinstance(cv, int) and not isinstance(cv, bool):
+                        out.append((f"{modname.split('.')[-1]}.{v.__name__}.{ck}", cv, v, ck))
+    return sorted(out, key=lambda t: t[0])
 
 
 def _lean_list(xs):
@@ -1333,7 +1627,25 @@ class C02(Prop):
                 "end QmiModel.Gen.StubBinding\n")
         path = core.LEAN / "QmiModel/Gen/StubBinding.lean"
         core.write_if_changed(path, text)
-        return [path]
+        # limits
+        files = [(rel, (core.REPO / rel).read_text()) for rel in LIMIT_FILES]
+        queues = extract_queues(files)
+        checks = extract_size_checks(dict(files)["qmi/core/messaging.py"])
+        limits = live_limits()
+        b = lambda x: "true" if x else "false"  # noqa
+        text2 = ("import QmiModel.Model.Forward\n"
+                 "/-! GENERATED by harness/props/c02.py (translate) from qmi/core/{rpc,messaging,context}.py — do not edit.\n"
+                 "The comparisons against MAX_MESSAGE_SIZE, every deque/Queue constructed on the RPC path, every MAX_* constant. -/\n"
+                 "namespace QmiModel.Gen.C02Limits\nopen QmiModel.Forward\n\n"
+                 "def sizeChecks : List SizeCheck := [" +
+                 ", ".join(f'{{ site := {json.dumps(st)}, sender := {b(sd)}, offset := {off}, strict := {b(stc)} }}' for st, sd, off, stc in checks) + "]\n"
+                 "def queues : List QueueDecl := [" +
+                 ", ".join(f'{{ site := {json.dumps(st)}, bound := {"none" if bd is None else f"some {bd}"} }}' for st, bd in queues) + "]\n"
+                 "def limits : List (String × Nat) := [" + ", ".join(f"({json.dumps(n)}, {v})" for n, v, _, _ in limits) + "]\n\n"
+                 "end QmiModel.Gen.C02Limits\n")
+        path2 = core.LEAN / "QmiModel/Gen/C02Limits.lean"
+        core.write_if_changed(path2, text2)
+        return [path, path2]
 
     # -- correspondence -----------------------------------------------------------------------------------
     def _note_failure(self, res, seen, plan, v, i, sig, detail, real_tcp=False):
@@ -1476,6 +1788,39 @@ class C02(Prop):
                 res.failures.append(Failure(f"corpus:{r[0]}", f"fixed corpus (seed {seed}): {r[1][:400]}",
                                             {"kind": "corpus", "seed": seed, "real_tcp": real_tcp}))
             self._add_trace(res, trace, {"kind": "corpus", "seed": seed, "real_tcp": real_tcp}, lines, outs, spans)
+
+    def _limits(self, ctx, res, seen, lines, outs, spans):
+        """cases AT every limit that lives in the source (read from the live code on this run)"""
+        lims = live_limits()
+        res.extra["limits_read_from_live_code"] = [(n, v) for n, v, _, _ in lims]
+        plans = [{"seed": ctx.rng.randrange(1 << 30), "limit": ctx.rng.randint(3000, 20000)} for _ in range(ctx.scale(2, 12))]
+        plans.append({"seed": ctx.rng.randrange(1 << 30), "limit": None, "offsets": [17, 16, 10, 9, 8, 7, 2, 1, 0, -1],
+                      "max_steps": 60000000, "split_prob": 0.0})          # the real MAX_MESSAGE_SIZE of the connection class
+        for plan in plans:
+            checks, hit, trace, info = run_size_boundary(plan)
+            r = checks_oracle(checks, info)
+            res.note_case(("size-boundary", json.dumps(plan, sort_keys=True)))
+            res.count("size_boundary_scenarios")
+            res.count("size_boundary_calls", len(checks))
+            for kind, off in hit:
+                res.count(f"size_boundary_{kind}_{'refused_by_sender' if off == 'refused' else 'bytes_to_spare_' + str(off)}")
+            if r and f"limit:{r[0]}" not in seen:
+                seen[f"limit:{r[0]}"] = 1
+                res.failures.append(Failure(f"limit:{r[0]}", f"message size limit {plan['limit'] or 'as in the source'}: {r[1][:400]}",
+                                            {"kind": "size", "plan": plan}))
+            if plan["limit"] is not None:
+                self._add_trace(res, trace, {"kind": "size", "plan": plan}, lines, outs, spans)
+        bplan = {"fixed_burst": 12000}
+        checks, facts, info = run_burst(bplan)
+        r = checks_oracle(checks, info)
+        res.extra["burst_facts"] = facts
+        res.note_case(("burst", facts.get("burst")))
+        res.count("burst_calls_behind_parked_worker", facts.get("burst", 0))
+        if r and f"limit:{r[0]}" not in seen:
+            seen[f"limit:{r[0]}"] = 1
+            res.failures.append(Failure(f"limit:{r[0]}", f"burst of {facts.get('burst')} un-waited calls (bounds found: "
+                                                         f"{facts.get('finite_queue_bounds')}, {facts.get('small_max_constants')}): {r[1][:300]}",
+                                        {"kind": "burst", "plan": bplan}))
 
     def _timeouts(self, ctx, res, n, seen, lines, outs, spans, real_tcp=False):
         rng = ctx.rng
@@ -1632,6 +1977,7 @@ class C02(Prop):
                 res.count("former_collision_keyword_replays")
                 res.note_case(("witness", nm))
             self._corpus(ctx, res, seen, lines, outs, spans)
+            self._limits(ctx, res, seen, lines, outs, spans)
             self._timeouts(ctx, res, ctx.scale(50, 500), seen, lines, outs, spans)
             ctx.log(f"fixed corpus and rpc_timeout scenarios done, {len(res.failures)} failing signatures")
             self._scripts(ctx, res, ctx.scale(180, 2000), 8, seen, lines, outs, spans)
@@ -1682,7 +2028,7 @@ class C02(Prop):
                     for f in eval_script(c["plan"], vs, c.get("real_tcp", False)):
                         self._note_failure(res, seen, c["plan"], f[0], f[1], f[2], f[3], c.get("real_tcp", False))
                     res.note_case(("case", json.dumps(c["plan"], sort_keys=True)))
-                elif c.get("kind") in ("corpus", "timeout"):
+                elif c.get("kind") in ("corpus", "timeout", "size", "burst"):
                     f = self.replay(ctx, c)
                     res.note_case(("case", json.dumps(c, sort_keys=True, default=repr)))
                     if f is not None and f.signature not in seen:
@@ -1703,6 +2049,9 @@ class C02(Prop):
                     if r:
                         res.failures.append(Failure(f"concurrent:{r[0]}", r[1][:400], {"kind": "conc", "plan": c["plan"],
                                                                                         "real_tcp": c.get("real_tcp", False)}))
+            # systematic sweep 0: every limit in the live code, more lowered limits
+            lines0, outs0, spans0 = [], [], []
+            self._limits(ctx, res, seen, lines0, outs0, spans0)
             # systematic sweep 1: every catalogue value x every way of passing it x every variant
             scripts = []
             for spec in CATALOGUE:
@@ -1769,6 +2118,14 @@ class C02(Prop):
                 checks, _, _, info = run_corpus(rp["seed"], real_tcp=rp.get("real_tcp", False))
                 r = checks_oracle(checks, info)
                 return Failure(f"corpus:{r[0]}", r[1][:600], rp) if r else None
+            if rp.get("kind") == "size":
+                checks, _, _, info = run_size_boundary(rp["plan"], want_trace=False)
+                r = checks_oracle(checks, info)
+                return Failure(f"limit:{r[0]}", r[1][:600], rp) if r else None
+            if rp.get("kind") == "burst":
+                checks, _, info = run_burst(rp["plan"])
+                r = checks_oracle(checks, info)
+                return Failure(f"limit:{r[0]}", r[1][:600], rp) if r else None
             if rp.get("kind") == "timeout":
                 checks, _, info = run_timeouts(rp["plan"], real_tcp=rp.get("real_tcp", False), want_trace=False)
                 r = checks_oracle(checks, info, expected_count=len(rp["plan"]["pending"]) + 7)
